@@ -39,6 +39,8 @@ func checkC07(p *Prog, r *Report) {
 	r.rule("C07.F7", "every path through a complete group seals every parity shard or calls skipParity, then resets shardCount and maxSize; sealData runs exactly once per encode", 3)
 	r.rule("C07.F8", "received data packets are fed to KCP.Input before and independently of fecDecoder.decode", 1)
 	r.rule("C07.F9", "paws = 0xffffffff / shardSize * shardSize at every store; ids advance modulo paws (C12.K5)", 3)
+	r.rule("C07.F14", "what was reconstructed reaches the reader: after KCP.Input of recovered packets every path tests the availability and posts the wake-up token, whichever packet type completed the group (= C13.W5b) — recovered segments are acknowledged, so nothing else will ever wake a reader that is already blocked", 2)
+	r.rule("C07.F13", "shards survive until their group is complete: the eviction horizon (newest group id) is set from the first packet and invalidated by a retune (= C16.T9) — a stale or zero horizon evicts every shard as soon as it is stored and nothing is ever reconstructed", 2)
 	r.rule("C07.F12", "parity reaches the decoder on the listener path too: in Listener.packetInput a datagram from which no conversation id could be read (every parity packet) is fed to the session that exists for its source — no condition between the lookup and the feed requires hasConv", 1)
 	r.rule("C07.F11", "every construction site of the codec (encoder, decoder, decoder retune) passes the same options to reedsolomon.New: sender and receiver compute parity with the same matrix", 3)
 	r.rule("C07.F10", "expected type by position: seqid % shardSize < dataShards <=> data; the discard horizon compares group ages with the wrap-safe signed difference", 2)
@@ -73,6 +75,8 @@ func checkC07(p *Prog, r *Report) {
 	checkFECEncode(p, r, enc)
 	checkFECSession(p, r)
 	checkListenerFeedsParity(p, r)
+	checkNewestGroupInit(p, r, "C07.F13")
+	delegate(p, r, "C13", checkC13, "C13.W5b", "C07.F14")
 
 	// ---- F9: delegate to C12.K5
 	{
